@@ -37,4 +37,4 @@ def run(ctx, rep):
     PR.selection_width(rep, lib)
     # the row itself: with_result appends exactly one entry and changes nothing else
     from rules import c12
-    common.share(c12, ctx, rep, {"C12-FRAME", "C12-EXTEND"}, key_prefixes=["with_result"], floors={"C12-FRAME": 7, "C12-EXTEND": 1})
+    common.share(c12, ctx, rep, {"C12-FRAME", "C12-EXTEND"}, key_prefixes=["with_result.results"], floors={"C12-FRAME": 0, "C12-EXTEND": 0})
